@@ -33,18 +33,21 @@
                              has no IN_MOVE are handled by a weaker twin relation: reader states equal up to
                              _moved_from_events), given a well-formed root path and rename sources with a base name
      C11_full_drained        C11_full instantiated with that drained semantics
+   PORT TO THE REPAIRED READER (F10: settle_pending / forget_tree / pend, unknown descriptors skipped).  The twins carry
+   [pend] (same candidate), forget the same tree, remove the same kernel watches and queue the same IN_IGNORED records
+   (forget_tree_twin, settle_twin, krm_watch_twin); unknown descriptors are skipped on both sides.  Statement changes
+   forced by the repair: C11_read_one_plain (the loop head may settle a candidate first; _idle variant = old statement),
+   C11_reader_transparent (+ guardedb), C11_transparent_step / _sequential / _sequential_all / C11_handler_sequential /
+   C11_pipeline_transparent_step (+ regular_step / regular_from for RECURSIVE watches; non-recursive watches unchanged:
+   C11_regular_nonrecursive), C11_full_drained (paced_drained + regularity).  Strengthened: histories past a directory
+   move-out are covered with the directory really forgotten on both sides (C11_sequential_moveout_nonvacuous); the
+   pinned refutations (mask table, item stream) do not depend on c_fix_moveout.
    What is NOT proved: C11_full for the Pipeline LTS over arbitrary action histories.  The gaps, named:
-     (a) histories that are not drained: several operations per read (the kernel then coalesces differently
-         under different masks - C11_kernel_twin is only up to kcollapse), reads that cut a burst, pairing
-         through the delay queue across reads and the clock;
-     (b) the skip-repeats event queue between emitter and handler is covered abstractly (C11_stutter_closure,
-         C11_handler_sequential: whatever repeats of the most recently queued event either queue drops, the
-         delivered streams are stutter-equal); the relation [skips] is not yet derived from the concurrent
-         SkipQueue model of C16 (its C16_drops_justified is the matching fact);
-     (c) C11_transparent_sequential(_all) speak about [run_from] (Inotify.__init__, then per operation: kernel,
-         one read of the whole queue, grouping, emission); per operation this is what Pipeline.prun delivers
-         (C11_pipeline_tie_filtered), but the induction over a whole Pipeline history (idle buffer re-established
-         after every operation) is not carried out.
+     (z) THE LAG (repaired reader, recursive filtered watch): when the first record after a directory move-out is one the
+         filter's mask excludes, the unfiltered reader forgets the directory before the filtered one; until the filtered
+         reader is sent a record the two are not twins (stale watches on one side).  No visible effect is expected
+         (C11_lag_instance: one such history, by computation); the bisimulation up to the lag is not done, hence the
+         hypothesis regular_from;
    C11_pipeline_tie_filtered / C11_pipeline_transparent_step tie the drained regime to Pipeline.prun with the
    watch's class filter (pc_filter): they are C03's pipeline_tie with the filter kept. *)
 Require Import WD.Base.Prelude WD.Base.BStr WD.Model.SubEvents WD.Model.Emitter WD.Model.MaskTable.
@@ -159,29 +162,53 @@ Print Assumptions C11_item_stream_refuted_pinned.
 
 (* ------------------------------------------------------------------ kernel, reader, buffer *)
 (* A raw kernel event with none of the bits the reader acts on (IN_MOVED_FROM, IN_MOVED_TO, IN_IGNORED, and
-   IN_CREATE with IN_ISDIR under a recursive watch) leaves the bookkeeping and the kernel untouched. *)
+   IN_CREATE with IN_ISDIR under a recursive watch).  REPAIRED READER (F10): the head of the loop first settles a
+   remembered move-out candidate (settle_pending); after that the event only appends its InotifyEvent - or nothing
+   when its descriptor is unknown (skipped; the pinned code raised KeyError). *)
 Theorem C11_read_one_plain : forall C t r k acc e,
   structural (c_recursive C) (k_mask e) = false ->
   read_one C t (r, k, acc) e =
-  match alookup N.eqb (k_wd e) (pfw r) with
-  | None => Crash SITE_PATH_FOR_WD
-  | Some wdp => Done (r, k, acc ++ [mkraw e (rpath wdp (k_name e))])
+  let '(r1, k1) := settle_pending C r k e in
+  match alookup N.eqb (k_wd e) (pfw r1) with
+  | None => if c_fix_moveout C then Done (r1, k1, acc) else Crash SITE_PATH_FOR_WD
+  | Some wdp => Done (r1, k1, acc ++ [mkraw e (rpath wdp (k_name e))])
   end.
 Proof. exact read_one_plain_c11. Qed.
 Print Assumptions C11_read_one_plain.
 
+(* ... and when no candidate is remembered (or with the pinned code) bookkeeping and kernel are untouched *)
+Theorem C11_read_one_plain_idle : forall C t r k acc e,
+  structural (c_recursive C) (k_mask e) = false -> pending_of C r = false ->
+  read_one C t (r, k, acc) e =
+  match alookup N.eqb (k_wd e) (pfw r) with
+  | None => if c_fix_moveout C then Done (r, k, acc) else Crash SITE_PATH_FOR_WD
+  | Some wdp => Done (r, k, acc ++ [mkraw e (rpath wdp (k_name e))])
+  end.
+Proof. exact read_one_plain_idle. Qed.
+Print Assumptions C11_read_one_plain_idle.
+
 (* For every predicate on masks that keeps the structural events (and, under a recursive watch, the
    IN_CREATE raws the reader simulates): reading the kept part of a batch ends in the same reader and
-   kernel state and outputs the kept part of the output. *)
+   kernel state and outputs the kept part of the output.
+   STATEMENT CHANGED BY THE REPAIR OF F10 (new hypothesis [guardedb]): a record that can find a move-out candidate
+   remembered - the first record when one is remembered at the start ([pending]), every successor of a directory
+   IN_MOVED_FROM - must be kept.  Without it the statement is false of the repaired reader: a dropped record in such a
+   position makes one run forget the moved directory and the other not (yet).  For the pinned code
+   (c_fix_moveout = false) [guardedb _ _ false _] is always true and the old statement is recovered. *)
 Theorem C11_reader_transparent : forall C t (keep : N -> bool),
   (forall m, structural (c_recursive C) m = true -> keep m = true) ->
   (c_recursive C = true -> keep IN_CREATE = true /\ keep (N.lor IN_CREATE IN_ISDIR) = true) ->
-  forall b r k acc r' k' out,
+  forall b r k acc r' k' out pending,
+    (pending_of C r = true -> pending = true) -> guardedb C keep pending b = true ->
     read_batch C t (r, k, acc) b = Done (r', k', out) ->
     read_batch C t (r, k, filter (fun x => keep (r_mask x)) acc) (filter (fun e => keep (k_mask e)) b)
     = Done (r', k', filter (fun x => keep (r_mask x)) out).
 Proof. exact reader_transparent. Qed.
 Print Assumptions C11_reader_transparent.
+
+Theorem C11_reader_transparent_pinned : forall C, c_fix_moveout C = false -> forall keep b, guardedb C keep false b = true.
+Proof. exact guarded_pinned. Qed.
+Print Assumptions C11_reader_transparent_pinned.
 
 (* Two inotify instances with the same watches, masks M and M' (M' inside M, no IN_ISDIR bit): the same
    operation keeps them twins, and the second queue is what the kernel's coalescing makes of the part of
@@ -219,14 +246,23 @@ Print Assumptions C11_visible_recursive.
 (* ONE DRAINED OPERATION.  [run_one F C full w k r o] = apply o, let the kernel queue its records, read the
    whole queue, group, emit through the class filter F; it returns the new world / kernel / reader state
    and the events queued (with F = None it is Contract.deliver_one).  The unfiltered watch has mask
-   WATCHDOG_ALL, the filtered one the mask its filter is compiled into. *)
+   WATCHDOG_ALL, the filtered one the mask its filter is compiled into.
+   REPAIRED READER (F10): the twins have the same reader state INCLUDING the remembered move-out candidate [pend], the
+   same watches up to their masks and the same unread records ([kw0]; the reader itself queues IN_IGNORED records
+   when it removes the watches of a directory that left the tree: [qjunk]).  New hypothesis [regular_step], about the
+   UNFILTERED world only: (1) the records in its kernel queue differ pairwise in (descriptor, mask, name) before and
+   after the operation - always true from a drained queue (C11_kernel_no_coalescing) -, (2) the batch is guarded
+   (C11_reader_transparent): the record after a directory IN_MOVED_FROM / the first record when a candidate is
+   remembered is one the filtered watch is sent too.  When (2) fails the unfiltered reader forgets the moved-out
+   directory one or more operations before the filtered reader does: a lag without visible effect that this theorem
+   does not cover. *)
 Theorem C11_transparent_step : forall F C, c_mask C = WATCHDOG_ALL -> visible F (c_recursive C) ->
   forall full w k k' r o w1 k1 r1 evs,
-    kw0 WATCHDOG_ALL (kmask F (c_recursive C)) k k' ->
+    kw0 WATCHDOG_ALL (kmask F (c_recursive C)) k k' -> qjunk k -> regular_step F C w k r o ->
     run_one None C full w k r o = Some (w1, k1, r1, evs) ->
     exists k1', run_one F (with_mask C (kmask F (c_recursive C))) full w k' r o
                 = Some (w1, k1', r1, filter (fun e => accepts F (ev_cls e)) evs) /\
-                kw0 WATCHDOG_ALL (kmask F (c_recursive C)) k1 k1'.
+                kw0 WATCHDOG_ALL (kmask F (c_recursive C)) k1 k1' /\ qjunk k1.
 Proof. exact transparent_step. Qed.
 Print Assumptions C11_transparent_step.
 
@@ -238,23 +274,35 @@ Print Assumptions C11_run_one_is_deliver_one.
 (* HISTORIES IN WHICH EVERY OPERATION IS DRAINED, from Inotify.__init__ on the initial file system: the watch
    with event filter F queues exactly the accepted part of what the unfiltered watch queues (no stutter
    needed: nothing is coalesced in this regime).  Hypothesis [visible]: the filter's mask contains IN_MOVE
-   (and IN_CREATE when recursive) - true of every recursive watch (C11_visible_recursive). *)
+   (and IN_CREATE when recursive) - true of every recursive watch (C11_visible_recursive).
+   STATEMENT CHANGED BY THE REPAIR OF F10: new hypothesis [regular_from] = [regular_step] at every operation of the
+   unfiltered run.  It holds for every non-recursive watch (C11_regular_nonrecursive) and along every run in which no
+   candidate is pending when an operation's first record is one the filter's mask excludes; histories that go past a
+   directory move-out ARE covered (the twins remember and forget the directory together), as long as the next record
+   after the move-out is sent to both watches. *)
 Theorem C11_transparent_sequential : forall F C full,
   c_mask C = WATCHDOG_ALL -> visible F (c_recursive C) ->
   forall w ops evs,
+    regular_from F C full w ops ->
     run_from None C full w ops = Some evs ->
     run_from F (with_mask C (kmask F (c_recursive C))) full w ops
     = Some (filter (fun e => accepts F (ev_cls e)) evs).
 Proof. exact transparent_from. Qed.
 Print Assumptions C11_transparent_sequential.
 
+Theorem C11_regular_nonrecursive : forall F C, c_recursive C = false -> forall full w ops, regular_from F C full w ops.
+Proof. exact regular_from_nr. Qed.
+Print Assumptions C11_regular_nonrecursive.
+
 (* EVERY FILTER, RECURSIVE AND NON-RECURSIVE.  The hypotheses beyond C11_transparent_sequential's replace
    [visible]: the root path is non-empty and does not end in "/", and the source of every rename has a proper
    base name (both true of every real path; needed only for the non-recursive watches whose mask has no IN_MOVE,
-   to know that a remembered move source is never the watched root itself). *)
+   to know that a remembered move source is never the watched root itself).  [regular_from] is needed for recursive
+   watches only. *)
 Theorem C11_transparent_sequential_all : forall F C full,
   c_mask C = WATCHDOG_ALL -> c_root C <> [] -> last_is_sep (c_root C) = false ->
   forall w ops evs, Forall op_ok ops ->
+    (c_recursive C = true -> regular_from F C full w ops) ->
     run_from None C full w ops = Some evs ->
     run_from F (with_mask C (kmask F (c_recursive C))) full w ops
     = Some (filter (fun e => accepts F (ev_cls e)) evs).
@@ -271,7 +319,7 @@ Theorem C11_reader_transparent_flat : forall C, c_recursive C = false -> c_root 
     read_batch C t (r, k, acc) b = Done (r', k', out) ->
     exists r0',
       read_batch C t (r0, k, filter (fun x => keep (r_mask x)) acc) (filter (fun e => keep (k_mask e)) b)
-      = Done (r0', k', filter (fun x => keep (r_mask x)) out) /\ req r' r0' /\ flat_inv (c_root C) r'.
+      = Done (r0', k', filter (fun x => keep (r_mask x)) out) /\ req r' r0' /\ flat_inv (c_root C) r' /\ k' = k.
 Proof. exact reader_transparent_flat. Qed.
 Print Assumptions C11_reader_transparent_flat.
 
@@ -288,6 +336,7 @@ Print Assumptions C11_stutter_closure.
 Theorem C11_handler_sequential : forall F C full,
   c_mask C = WATCHDOG_ALL -> c_root C <> [] -> last_is_sep (c_root C) = false ->
   forall w ops evsU, Forall op_ok ops ->
+    (c_recursive C = true -> regular_from F C full w ops) ->
     run_from None C full w ops = Some evsU ->
     exists evsF, run_from F (with_mask C (kmask F (c_recursive C))) full w ops = Some evsF /\
       forall keptU keptF, skips None evsU keptU -> skips None evsF keptF ->
@@ -325,6 +374,8 @@ Theorem C11_pipeline_transparent_step : forall F PU PF sU sF o,
   buffer_idle (p_buf sU) -> buffer_idle (p_buf sF) -> p_stopped sU = false -> p_stopped sF = false ->
   (forall id, In id (map fst (p_tbl sU)) -> (id < p_next sU)%N) ->
   (forall id, In id (map fst (p_tbl sF)) -> (id < p_next sF)%N) ->
+  k_queue (p_k sU) = [] ->
+  regular_step F (pc_reader PU) (p_world sU) (p_k sU) (p_r sU) o ->
   forall w1 k1 r1 evs,
   run_one None (pc_reader PU) (pc_full PU) (p_world sU) (p_k sU) (p_r sU) o = Some (w1, k1, r1, evs) ->
   exists nU sU' obsU nF sF' obsF,
@@ -473,6 +524,34 @@ Example C11_full_drained_nonvacuous :
   paced_drained {| dh_cfg := ex_C true; dh_world := ex_world;
                    dh_ops := [Touch (ex_sl ex_R 97); Rename (ex_sl ex_R 97) (ex_sl ex_O 99); Mkdir (ex_sl ex_R 109)] |}.
 Proof.
-  split; [reflexivity|]. split; [discriminate|]. split; [reflexivity|]. split; [repeat constructor|].
-  intros full recursive. destruct full, recursive; vm_compute; discriminate.
+  split; [reflexivity|]. split; [discriminate|]. split; [reflexivity|]. split; [repeat constructor|]. split.
+  - intros full recursive. destruct full, recursive; vm_compute; discriminate.
+  - intros F full. apply calm_fromb_sound. destruct full; vm_compute; reflexivity.
 Qed.
+
+(* REPAIRED READER (F10): a history that goes past a DIRECTORY MOVE-OUT under a recursive watch with filter
+   [FileDeletedEvent, DirDeletedEvent] (mask DELETE_SELF|MOVE|CREATE|DELETE): mkdir R/m; touch R/m/f; mv R/m O/q; touch R/z; rm R/z.
+   Both readers remember the candidate after the move-out and forget the directory at the next record (IN_CREATE z,
+   sent to both): the run is regular and the theorem applies. *)
+Example C11_sequential_moveout_nonvacuous :
+  let F := Some [Concrete FileDeleted; Concrete DirDeleted] in
+  let ops := [Mkdir (ex_sl ex_R 109); Touch (ex_sl (ex_sl ex_R 109) 102); Rename (ex_sl ex_R 109) (ex_sl ex_O 113);
+              Touch (ex_sl ex_R 122); Unlink (ex_sl ex_R 122)] in
+  regular_from F (ex_C true) false ex_world ops /\
+  option_map (map (fun e => (ev_cls e, ev_src e)))
+             (run_from F (with_mask (ex_C true) (kmask F true)) false ex_world ops)
+    = Some [(DirDeleted, ex_sl ex_R 109); (FileDeleted, ex_sl ex_R 122)].
+Proof. split; [apply regular_fromb_sound; vm_compute; reflexivity | vm_compute; reflexivity]. Qed.
+
+(* ... and a history that is NOT regular: after the move-out the next operation (append to R/x) queues only records the
+   filter's mask excludes, so the unfiltered reader forgets R/m one operation before the filtered reader does (at the
+   IN_CREATE of the touch).  The theorem does not apply; on this instance its conclusion holds all the same (by
+   computation): the lag has no visible effect. *)
+Example C11_lag_instance :
+  let F := Some [Concrete FileDeleted; Concrete DirDeleted] in
+  let ops := [Mkdir (ex_sl ex_R 109); Rename (ex_sl ex_R 109) (ex_sl ex_O 113); Write ex_Rx;
+              Touch (ex_sl (ex_sl ex_O 113) 102); Touch (ex_sl ex_R 122); Unlink (ex_sl ex_R 122)] in
+  regular_fromb F (ex_C true) false ex_world ops = false /\
+  run_from F (with_mask (ex_C true) (kmask F true)) false ex_world ops
+  = option_map (filter (fun e => accepts F (ev_cls e))) (run_from None (ex_C true) false ex_world ops).
+Proof. split; vm_compute; reflexivity. Qed.
